@@ -4,6 +4,7 @@ import json
 
 CLAIMED = {
  "C01": ("DESIGN.md §5 C01", "every byte string up to N bytes through all five strict front-ends vs an RFC 8259 reference recogniser executed symbolically on the same bytes"),
+ "C02": ("DESIGN.md §5 C02", "number literals with every digit symbolic at and around the accumulator thresholds (int64 exact, float64 = ParseFloat of a text with the same decimal denotation, json.Number same denotation) and string literals with symbolic content / escapes vs a reference decoder, through the parsers and the tokenizer"),
  "C03": ("DESIGN.md §5 C03", "differential: oj.Parse vs reader variants behind a chunking reader (every split point / composition), tokenizer+Builder, gen.Parser+Simplify, validator, sen.Parser on valid JSON"),
  "C04": ("DESIGN.md §5 C04", "AppendJSONString on every string up to N bytes and oj.Writer on tree shapes with symbolic leaves under the option combinations, decoded by a reference JSON decoder and compared with the input; streaming Write with symbolic WriteLimit vs the in-memory text; Sort determinism over all map iteration orders"),
  "C05": ("DESIGN.md §5 C05", "jp.Expr.Get vs a reference selector over concrete data shapes with symbolic indexes, slice bounds, keys and filter constants, every fragment kind in every position"),
